@@ -51,8 +51,10 @@ def _attrs(lib, sup, ps, edge, calc_ids):
             continue  # not exclusive to this arm
         f = fn_of(t) or {}
         d = f.get("def", "")
-        if f.get("trait") == "Output" and f.get("name", "").startswith("transcode_"):
-            a_methods.add(f["name"])
+        role = common.output_role(lib.facts, f)
+        if role in ("from", "value"):
+            # labelled by role, whatever the methods are called in the source
+            a_methods.add("transcode_from" if role == "from" else "transcode_value")
         if f.get("name") in ("set_max_depth", "disable_recursion_limit"):
             v = None
             if len(t["args"]) > 1:
